@@ -39,6 +39,22 @@ def run(ctx, cases, pool=None, tag='sheet'):
         for i in bad:
             out['model_mismatch'].append({'input': {'text': cases[i]['text'], 'opts': cases[i]['opts']}, 'impl': answers[i],
                                           'model': diag.get(i), 'classes': cases[i].get('classes', [])})
+    # ---- the whole pipeline inside Coq, from the TEXT (lexer + token filter + reference parser + evaluator + formatter): no predicted tree
+    if ctx.get('model_usable', True) and ctx.get('text_pipeline', True):
+        trows = []
+        for c, a in zip(cases, answers):
+            term = 'text_case %s %s %s' % (opts_term(c['opts']), coqrun.coq_str(c['text']), coqrun.coq_res(a))
+            trows.append(('bool', '(fst (%s))' % term, '(snd (%s))' % term))
+        bad, diag, errs = coqrun.evaluate(trows, ['Model.Ast', 'Model.Fmt', 'Model.Eval', 'Model.Pipeline'], wd, tag='t', shard=40)
+        out['harness_errors'] += errs
+        abst = 0
+        for i in bad:
+            if diag.get(i, '').startswith('ABSTAIN'):
+                abst += 1
+                continue
+            out['model_mismatch'].append({'input': {'text': cases[i]['text'], 'opts': cases[i]['opts'], 'via': 'text pipeline (Lex + Parse + Eval)'}, 'impl': answers[i],
+                                          'model': diag.get(i), 'classes': cases[i].get('classes', [])})
+        out['text_pipeline'] = {'cases': len(trows), 'abstains': abst}
     # ---- implementation vs reference semantics: read the produced CSS back and compare the flat items
     srows = []
     for c, a in zip(cases, answers):
